@@ -32,6 +32,8 @@ def run_property(pid, tier, root, seed, selftest=True, out_dir=None, evidence_di
             from .props import common as _common
             _common.rule_no_memo(chk)
             _common.rule_stateless(chk)
+            from .props import integration
+            integration.run(chk)   # the property's mechanisms as used by eliot/twisted.py, dask.py, stdlib.py
         except AnalysisError as e:
             # a positively identified violation stands even if a later rule lost its anchor
             if not any(o.status == "VIOLATED" for o in chk.obs):
@@ -42,8 +44,6 @@ def run_property(pid, tier, root, seed, selftest=True, out_dir=None, evidence_di
             chk.assume(a)
         extra = {}
         if tier == "thorough":
-            from .props import integration
-            integration.run(chk)
             extra["exhaustive"] = True
             from . import thorough
             from .cfg import CFG
